@@ -60,6 +60,7 @@ def main(argv=None):
         status = 2
     # ---- determinism self-test: same seeds, fresh interpreter, other hash seed, one worker
     selftest = {"runs": 0, "mismatch": 0, "hashseeds": [0, 1]}
+    selftest_bad = []
     if want and status == 0:
         try:
             d2 = _fresh_digests(prop, tier, base_seed, want, 1)
@@ -67,9 +68,9 @@ def main(argv=None):
             bad = [i for i in want if agg["digests"].get(i) != d2.get(i)]
             selftest["mismatch"] = len(bad)
             if bad:
-                print("HARNESS-ERROR property=%s determinism self-test: digest mismatch at indices %s"
-                      % (prop, bad[:8]), flush=True)
-                status = 2
+                # decided further down: if violations are confirmed by fresh replays, the code under test (not the harness)
+                # is what carries state from run to run, and the violations take precedence
+                selftest_bad = bad
         except Exception as e:
             print("HARNESS-ERROR property=%s determinism self-test failed to run: %r" % (prop, e), flush=True)
             status = 2
@@ -125,6 +126,13 @@ def main(argv=None):
         else:
             print("HARNESS-ERROR property=%s minimised plan %s did not reproduce in a fresh interpreter "
                   "(exit %d)\n%s" % (prop, path, p.returncode, (p.stdout + p.stderr)[-1500:]), flush=True)
+            status = 2
+    if selftest_bad:
+        if replays:
+            print("note: determinism self-test: digests of runs %s differ between the pool and a fresh interpreter; violations were "
+                  "confirmed by fresh replays, so the state carried between runs lives in the code under test" % selftest_bad[:8], flush=True)
+        else:
+            print("HARNESS-ERROR property=%s determinism self-test: digest mismatch at indices %s" % (prop, selftest_bad[:8]), flush=True)
             status = 2
     for sig in sorted(known):
         e = known[sig]
